@@ -256,6 +256,197 @@ async def loop_output_case(context):
     return None
 
 
+async def transfer_case(context):
+    """a job-bound step: a TransferStep with 1..3 input ports and 2..4 tags whose tokens arrive in an independent order on every
+    port; each emitted token is linked to the job token of the job it was transferred for plus the consumed inputs OF ITS TAG"""
+    from streamflow.core.workflow import Job
+    from streamflow.workflow.port import JobPort
+    from streamflow.workflow.step import TransferStep
+    from streamflow.workflow.token import JobToken
+
+    used = {}
+
+    class IdentityTransferStep(TransferStep):
+        async def transfer(self, job, token):
+            out = token.update(token.value)
+            used[id(out)] = job.name
+            return out
+
+    names = ["a", "b", "c"][:rng.randint(1, 3)]
+    tags = [f"0.{i}" for i in rng.sample(range(12), rng.randint(2, 4))]
+    wf = Workflow(context=context, name=uniq("c07-x"), config={})
+    ins = {n: wf.create_port() for n in names}
+    outs = {n: wf.create_port() for n in names}
+    job_port = wf.create_port(cls=JobPort)
+    step = wf.create_step(cls=IdentityTransferStep, name="/" + uniq("xfer") + "/__transfer__", job_port=job_port)
+    for n in names:
+        step.add_input_port(n, ins[n])
+        step.add_output_port(n, outs[n])
+    await wf.save(context.database)
+    tmp = tempfile.gettempdir()
+    src = {}
+    for n in names:
+        order = list(tags)
+        rng.shuffle(order)
+        for tag in order:
+            t = Token(value=f"{n}@{tag}", tag=tag, recoverable=True)
+            await t.save(context.database, port_id=ins[n].persistent_id)
+            src[(n, tag)] = t
+            ins[n].put(t)
+        ins[n].put(TerminationToken())
+    jobs = {}
+    for tag in tags:
+        jt = JobToken(value=Job(name=f"/xfer/{tag}", workflow_id=wf.persistent_id, inputs={}, input_directory=tmp, output_directory=tmp, tmp_directory=tmp), tag=tag)
+        await jt.save(context.database, port_id=job_port.persistent_id)
+        jobs[jt.value.name] = jt
+        job_port.put(jt)
+    job_port.put(TerminationToken())
+    await asyncio.wait_for(step.run(), 60)
+    rows = await provenance(context)
+    emitted = 0
+    for n in names:
+        for o in outs[n].token_list:
+            if isinstance(o, TerminationToken):
+                continue
+            emitted += 1
+            if id(o) not in used and o.persistent_id is not None:
+                # (the persisted token may be a re-created object: fall back to any one job token)
+                job_ids = [d for d, r in rows if r == o.persistent_id and d in {j.persistent_id for j in jobs.values()}]
+                want_job = job_ids[:1]
+            else:
+                want_job = [jobs[used[id(o)]].persistent_id] if id(o) in used else []
+            want = want_job + [src[(m, o.tag)].persistent_id for m in names]
+            bad = check_links(rows, o, want, f"TransferStep: output {n} of tag {o.tag} ({len(names)} ports, tags {tags})")
+            if bad:
+                return bad
+    if emitted != len(names) * len(tags):
+        return {"failure": "the transfer step did not emit one token per port and tag", "emitted": emitted, "expected": len(names) * len(tags)}
+    return None
+
+
+async def schedule_case(context):
+    """a job-bound step: a real ScheduleStep bound to 1..3 alternative local deployments (one connector port each, fed by real DeploySteps):
+    the job token it emits is linked to the data inputs of its tag and to the deployment token of EVERY connector port it consumed"""
+    import posixpath
+    import shutil
+
+    from streamflow.core.config import BindingConfig
+    from streamflow.core.deployment import DeploymentConfig, Target
+    from streamflow.core.workflow import Status
+    from streamflow.workflow.port import ConnectorPort
+    from streamflow.workflow.step import DeployStep, ScheduleStep
+    from streamflow.workflow.token import JobToken
+
+    base = tempfile.mkdtemp(prefix="c07s.")
+    try:
+        wf = Workflow(context=context, name=uniq("c07-s"), config={})
+        deploy_steps = []
+        for k in range(rng.randint(1, 3)):
+            name = uniq("site")
+            os.makedirs(os.path.join(base, name))
+            cfg = DeploymentConfig(name=name, type="local", config={}, external=True, lazy=False, workdir=os.path.join(base, name))
+            deploy_steps.append(wf.create_step(cls=DeployStep, name=posixpath.join("__deploy__", name), deployment_config=cfg,
+                                               connector_port=wf.create_port(cls=ConnectorPort)))
+        binding = BindingConfig(targets=[Target(deployment=d.deployment_config) for d in deploy_steps])
+        names = ["x", "y"][:rng.randint(1, 2)]
+        ins = {n: wf.create_port() for n in names}
+        prefix = "/" + uniq("work")
+        sched = wf.create_step(cls=ScheduleStep, name=posixpath.join(prefix, "__schedule__"), job_prefix=prefix,
+                               connector_ports={d.deployment_config.name: d.get_output_port() for d in deploy_steps}, binding_config=binding)
+        for n in names:
+            sched.add_input_port(n, ins[n])
+        await wf.save(context.database)
+        tags = [f"0.{i}" for i in rng.sample(range(12), rng.randint(1, 3))]
+        src = {}
+        for n in names:
+            order = list(tags)
+            rng.shuffle(order)
+            for tag in order:
+                t = Token(value=f"{n}@{tag}", tag=tag, recoverable=True)
+                await t.save(context.database, port_id=ins[n].persistent_id)
+                src[(n, tag)] = t
+                ins[n].put(t)
+            ins[n].put(TerminationToken())
+        await asyncio.wait_for(StreamFlowExecutor(wf).run(), 60)
+        job_tokens = [t for t in sched.get_output_port("__job__").token_list if isinstance(t, JobToken)]
+        for jt in job_tokens:
+            await context.scheduler.notify_status(jt.value.name, Status.COMPLETED)
+        if sorted(t.tag for t in job_tokens) != sorted(tags):
+            return {"failure": "the schedule step did not emit one job token per tag", "tags": tags, "job_tokens": [t.tag for t in job_tokens]}
+        dep_tokens = []
+        for d in deploy_steps:
+            toks = [t for t in d.get_output_port().token_list if not isinstance(t, TerminationToken)]
+            if len(toks) != 1 or toks[0].persistent_id is None:
+                return {"failure": "a deploy step did not emit one persisted token", "deployment": d.deployment_config.name}
+            dep_tokens.append(toks[0].persistent_id)
+        rows = await provenance(context)
+        for jt in job_tokens:
+            bad = check_links(rows, jt, [src[(n, jt.tag)].persistent_id for n in names] + dep_tokens,
+                              f"ScheduleStep: job token of tag {jt.tag} ({len(deploy_steps)} deployments, {len(names)} data inputs)")
+            if bad:
+                return bad
+        return None
+    finally:
+        try:
+            await context.deployment_manager.undeploy_all()
+        except Exception:
+            pass
+        shutil.rmtree(base, ignore_errors=True)
+
+
+async def deploy_case(context):
+    """a DeployStep that waits for tokens on 1..2 input ports (the connector ports of the deployments it depends on), 1..3 tags in an
+    independent order per port: the deployment token emitted for a tag is linked to the consumed inputs OF THAT TAG"""
+    import posixpath
+    import shutil
+
+    from streamflow.core.deployment import DeploymentConfig
+    from streamflow.workflow.port import ConnectorPort
+    from streamflow.workflow.step import DeployStep
+
+    base = tempfile.mkdtemp(prefix="c07d.")
+    try:
+        wf = Workflow(context=context, name=uniq("c07-d"), config={})
+        name = uniq("site")
+        cfg = DeploymentConfig(name=name, type="local", config={}, external=True, lazy=False, workdir=base)
+        step = wf.create_step(cls=DeployStep, name=posixpath.join("__deploy__", name), deployment_config=cfg, connector_port=wf.create_port(cls=ConnectorPort))
+        names = ["u", "v"][:rng.randint(1, 2)]
+        ins = {n: wf.create_port() for n in names}
+        for n in names:
+            step.add_input_port(n, ins[n])
+        await wf.save(context.database)
+        tags = [f"0.{i}" for i in rng.sample(range(12), rng.randint(1, 3))]
+        src = {}
+        for n in names:
+            order = list(tags)
+            rng.shuffle(order)
+            for tag in order:
+                t = Token(value=f"{n}@{tag}", tag=tag, recoverable=True)
+                await t.save(context.database, port_id=ins[n].persistent_id)
+                src[(n, tag)] = t
+                ins[n].put(t)
+            ins[n].put(TerminationToken())
+        await asyncio.wait_for(step.run(), 60)
+        outs = [t for t in step.get_output_port().token_list if not isinstance(t, TerminationToken)]
+        if len(outs) != len(tags):
+            return {"failure": "the deploy step did not emit one token per tag group", "tags": tags, "emitted": len(outs)}
+        rows = await provenance(context)
+        # the emitted tokens carry the default tag: the k-th one belongs to the k-th tag group that completed; whatever that order is,
+        # the recorded dependee sets must be exactly the tag groups, each once
+        groups = sorted(sorted(src[(n, tag)].persistent_id for n in names) for tag in tags)
+        recorded = sorted(sorted(d for d, r in rows if r == o.persistent_id) for o in outs)
+        if recorded != groups:
+            return {"failure": "the tokens emitted by a DeployStep are not linked to exactly the inputs of one tag group each", "recorded_dependee_sets": recorded,
+                    "tag_groups": groups, "ports": names, "tags": tags}
+        return None
+    finally:
+        try:
+            await context.deployment_manager.undeploy_all()
+        except Exception:
+            pass
+        shutil.rmtree(base, ignore_errors=True)
+
+
 async def search(n):
     workdir = tempfile.mkdtemp(prefix="c07.")
     context = build_context({"database": {"type": "default", "config": {"connection": ":memory:"}}, "path": workdir})
@@ -266,7 +457,7 @@ async def search(n):
             if bad:
                 return bad
         for k in range(n):
-            bad = await [transformer_case, gather_case, scatter_gather_case, combinator_case, loop_output_case][k % 5](context)
+            bad = await [transformer_case, gather_case, scatter_gather_case, combinator_case, loop_output_case, transfer_case, schedule_case, deploy_case][k % 8](context)
             if bad:
                 return bad
     except Exception as e:
